@@ -954,3 +954,26 @@ def lim4(run):
             conv = any("try_into" in (t.get("callee") or "") for _, t in f.calls())
             run.check(conv and bool(pushes), R, key, f.loc(), "BigInt::%s converts the shift amount with try_into and reports when it does not fit" % name,
                       "BigInt::%s does not convert the shift amount with a checked conversion" % name)
+
+
+def lim_fmt_width(run, R="LIM5"):
+    """a number chosen by the user is not used as the width/precision of a format directive (`{:1$}`): std panics with `Formatting
+    argument out of range` when it exceeds 65535"""
+    prog = run.prog
+    T = getattr(run, "_taint", None)
+    if T is None:
+        T = Taint(prog, run.table("lim").get("contracts"), run.table("lim").get("capped_sources")).solve()
+        run._taint = T
+    n = 0
+    for f in prog.real_fns():
+        k = 0
+        for bi, t in f.calls():
+            if not (t.get("callee") or "").endswith("fmt::rt::Argument::<'_>::from_usize") or not t["args"]:
+                continue
+            n += 1
+            if T.op_class(f, t["args"][0]) == WORD:
+                k += 1
+                root = f.raw.get("root") or f.id
+                run.violation(R, "%s|fmt-width|%s|%d" % (R, root, k), f.loc(t["span"]),
+                              "%s uses a user-chosen number (`%s`) as a format width: above 65535 `format!` panics with `Formatting argument out of range`" % (root, describe_origin(f, f.origin_op(t["args"][0]))[:60]))
+    run.check(n >= 10, R, R + "|fmt-width|scope", "-", "%d runtime format widths inspected" % n, "format width arguments not found")
